@@ -388,7 +388,7 @@ fn run(run: &mut Run) {
     run.assume("the importer's raw unit is the angstrom (10000 per micron), as its documentation says; layer numbers, vias, masks are not compared");
     run.min_nontrivial = 200;
     run.literals("literals", &[vec![0, 0], vec![0, 1]], &literal_case);
-    run.explore("import", run.tier.pick(200_000, 1_500_000), 1500, &main_case);
+    run.explore("import", run.tier.pick(300_000, 4_000_000), 1500, &main_case);
 }
 fn case(sub: &str) -> Option<Box<CaseFn<'static>>> {
     match sub {
